@@ -337,7 +337,8 @@ class Oracles:
         r1 = float(np.abs(Ad @ V - V * w[None, :]).max())
         r2 = float(np.abs(W @ V - np.eye(n)).max())
         r3 = float(np.abs(V @ W - np.eye(n)).max())
-        if max(r1 / sc, r2, r3) > tol:
+        self.cond = max(self.cond, float(np.linalg.cond(V)))
+        if not (max(r1 / sc, r2, r3) <= tol * max(1.0, float(np.linalg.cond(V)))):
             self.hyp_fail.append(f"{rule} oracle: |AV-VD|={r1:.2g} |WV-I|={r2:.2g} |VW-I|={r3:.2g}")
         self.cond = max(self.cond, float(np.linalg.cond(V)))
         self.f_at(w)
@@ -543,6 +544,11 @@ def run(ctx):
         except Exception as e:
             mism.append(dict(oracle_fail=False, case=case_js, harness_error=f"oracle evaluation failed: {type(e).__name__}: {e}"))
             continue
+        if orc.cond > 1e4:
+            # LAPACK's general eig may return an almost dependent basis inside the eigenspace of a repeated eigenvalue: f(A) is then
+            # only accurate to eps*cond(V); such cases are counted, not compared
+            bump(skipped, "ill_conditioned_eigenbasis")
+            continue
         if orc.hyp_fail:
             mism.append(dict(oracle_fail=False, case=case_js, failed_clauses=["an eigen-oracle violates its specification: " + "; ".join(orc.hyp_fail)]))
             continue
@@ -550,9 +556,11 @@ def run(ctx):
             call = f"(CPowInt true ({kk}))"
         else:
             call = f"(CUnary {mode})"
+        if bad and orc.cond > 10:
+            bad = [b for b in bad if not b.startswith("|F@X")] + ([f"|F@X - f(A)@X| = {err:.3g} (scale {sc:.3g}, cond(V) {orc.cond:.3g})"] if not err <= tol * sc * 10 * orc.cond else [])
         tab = "[" + ";".join(f"({a},{b})" for a, b in orc.points.items()) + "]"
         sc = max(1.0, float(np.abs(Y).max()))
-        mtol = (1e-3 if f32 else 1e-9) * sc * min(orc.cond, 1e3) * max(1, n)
+        mtol = (1e-3 if f32 else 1e-9) * sc * min(orc.cond, 1e4) * max(1, n)
         uterms.append(f"mkucase {n} {term} {call} {tab} {k} {L.qmat(X)} {L.qc_lit(mtol ** 2)} {L.qmat(Y)}")
         auterms.extend(orc.auto_obs)
         umeta.append(dict(case=case_js, bad=bad, got=dict(FX=np.round(Y, 8).tolist() if not cplx else "complex")))
@@ -789,6 +797,14 @@ def run(ctx):
                     kmeta.append(dict(case=dict(case_js, column=b), bad=[], got={}))
             except Exception as e:
                 mism.append(dict(oracle_fail=False, case=case_js, harness_error=f"Krylov oracle data: {type(e).__name__}: {e}"))
+        condV = 1.0
+        if not krylov and not shortcut and not (alg == "Eigh" or (alg in ("Auto", "none") and (cls.startswith("psd") or cls == "kronsq"))):
+            condV = float(np.linalg.cond(np.linalg.eig(np.asarray(A.to_dense()))[1]))      # the general eig rule: conditioning of LAPACK's eigenbasis
+            if condV > 1e4:
+                bump(skipped, "ill_conditioned_eigenbasis")
+                continue
+            if bad and condV > 10 and complete:
+                bad = [b for b in bad if not b.startswith("|F@X")] + ([f"|F@X - f(A)@X| = {err:.3g} (cond(V) {condV:.3g})"] if not err <= tolC * sc * condV * 10 else [])
         if bad:
             mism.append(dict(oracle_fail=True, case=case_js, failed_clauses=bad, got=dict(FX=str(Y.tolist())[:300])))
         elif not krylov and not shortcut:
@@ -806,7 +822,10 @@ def run(ctx):
                 continue
             tab = "[" + ";".join(f"({a},{b})" for a, b in orc.points.items()) + "]"
             sc = max(1.0, float(np.abs(Y).max()))
-            uterms.append(f"mkucase {n} {term} (CUnary MGeneric) {tab} {k} {L.qmat(X)} {L.qc_lit((1e-9 * sc * min(orc.cond, 1e3) * n) ** 2)} {L.qmat(Y)}")
+            if orc.cond > 1e4:
+                bump(skipped, "ill_conditioned_eigenbasis")
+                continue
+            uterms.append(f"mkucase {n} {term} (CUnary MGeneric) {tab} {k} {L.qmat(X)} {L.qc_lit((1e-9 * sc * min(orc.cond, 1e4) * n) ** 2)} {L.qmat(Y)}")
             auterms.extend(orc.auto_obs)
             umeta.append(dict(case=case_js, bad=[], got={}))
 
